@@ -671,3 +671,34 @@ def section(rc, fn, *args, **kwargs):
     except AnalysisError as e:
         rc.res.error(str(e))
         return None
+
+
+def log_only_local(fi, name: str) -> bool:
+    """A local that is only ever read inside logging calls (a counter kept for a debug message): updating it is not an
+    effect of the function."""
+    if name in {a.arg for a in fi.node.args.args + fi.node.args.kwonlyargs}:
+        return False
+    parents = {}
+    for p_ in ast.walk(fi.node):
+        for c_ in ast.iter_child_nodes(p_):
+            parents[id(c_)] = p_
+    seen = False
+    for n in ast.walk(fi.node):
+        if isinstance(n, ast.Name) and n.id == name:
+            seen = True
+            if not isinstance(n.ctx, ast.Load):
+                continue
+            cur, ok = n, False
+            while id(cur) in parents:
+                cur = parents[id(cur)]
+                if isinstance(cur, ast.Call) and isinstance(cur.func, ast.Attribute) and isinstance(cur.func.value, ast.Name) \
+                        and cur.func.value.id in ("logger", "logging", "log") and cur.func.attr in ("debug", "info", "warning", "error", "log"):
+                    ok = True
+                    break
+                if isinstance(cur, ast.stmt):
+                    break
+            if not ok:
+                return False
+        elif isinstance(n, (ast.Global, ast.Nonlocal)) and name in n.names:
+            return False
+    return seen
